@@ -64,7 +64,7 @@ func runSolver(ctx context.Context, s solverSpec, file string, timeoutSec int) s
 // solveOne: quick single-solver attempt, then a race of all three.
 func solveOne(o *Obligation, dir string, idx int, quickSec, fullSec int) {
 	file := filepath.Join(dir, fmt.Sprintf("o%05d.smt2", idx))
-	smt := o.SMT(true)
+	smt := o.smtText
 	if err := os.WriteFile(file, []byte(smt), 0o644); err != nil {
 		o.Result = "error"
 		o.Output = err.Error()
@@ -128,6 +128,9 @@ func firstLines(s string, n int) string {
 }
 
 func solveAll(obls []*Obligation, dir string, workers, quickSec, fullSec int) {
+	for _, o := range obls {
+		o.smtText = o.SMT(true)
+	}
 	var wg sync.WaitGroup
 	ch := make(chan int)
 	for w := 0; w < workers; w++ {
